@@ -1011,11 +1011,13 @@ func (g *schemaGenerator) generateEnumType(t *schemas.Type, scope nameScope) (co
 
 	if len(t.Type) == 1 {
 		var err error
+		// The listed values are decoded as int (see below) and compared with
+		// reflect.DeepEqual, so the carrier must be int too: no sized integers here.
 		if enumType, err = codegen.PrimitiveTypeFromJSONSchemaType(
 			t.Type[0],
 			t.Format,
 			false,
-			g.config.MinSizedInts,
+			false,
 			&t.Minimum,
 			&t.Maximum,
 			&t.ExclusiveMinimum,
